@@ -472,7 +472,7 @@ def run(ctx):
     from . import c11 as _c11
     from .c08 import _take as _take2
     n6 = len(r6.obligations)
-    _take2(r6, _c11.run(ctx), "C11.R5", lambda c: c.startswith("meta["))
+    _take2(r6, ctx.other(_c11), "C11.R5", lambda c: c.startswith("meta["))
     r6.check(len(r6.obligations) - n6 >= 8, "workbook_to_json:meta parent", "the meta-block obligations of C11.R5 were evaluated (the block goes to the root frame's children)", w2j.loc())
     st0 = [x for x in walk_own(w2j.node) if isinstance(x, ast.AnnAssign | ast.Assign) and norm(getattr(x, "target", None) or x.targets[0]) == "stack"]
     r6.check(bool(st0) and "json_dict.get(constants.CHILDREN)" in norm(st0[0].value), "workbook_to_json:root frame", "the root frame's children list is the JSON root's children list", w2j.loc())
@@ -486,7 +486,7 @@ def run(ctx):
     from .c08 import _take
     r10 = Rule("C02", "C02.R10", "entity binds name attributes the entity node has", floor=20,
                necessary="a bind on /meta/entity/@x where the node has no attribute x is a dangling bind")
-    _take(r10, c19.run(ctx), "C19.R1", lambda c: c.startswith("bind-target") or "survey.entity_features=" in c)
+    _take(r10, ctx.other(c19), "C19.R1", lambda c: c.startswith("bind-target") or "survey.entity_features=" in c)
     rules.append(r10)
     return rules
 
